@@ -154,11 +154,15 @@ func genAccess(pkgs []*packages.Package) {
 			}
 		}
 	}
-	copies = copies && rowCopy
-	matrixCopied = copies
 	// phase claims checked against the call graph: a function classified set-up-only that is reachable
 	// from the run roots (other than through a reviewed edge) is treated as run-phase
 	cg := buildCallGraph(pkgs)
+	// … and the copy reaches the rows: For.DeepCopy copies its matrix, Matrix.DeepCopy goes through the element-wise
+	// deepcopy.OrderedMap (orderedmap's own Copy() would share the *MatrixRow values)
+	chain := cg.edges["taskfile/ast:For.DeepCopy"]["taskfile/ast:Matrix.DeepCopy"] &&
+		cg.edges["taskfile/ast:Matrix.DeepCopy"]["internal/deepcopy:OrderedMap"]
+	copies = copies && rowCopy && chain
+	matrixCopied = copies
 	ph := checkPhases(cg)
 	// classification
 	total, setup, confined, outside := len(all), 0, 0, 0
